@@ -3131,7 +3131,7 @@ pub fn matrix_column_elements(&mut self, column_elements: &[&MatrixColumn]) -> S
     match node {
       VecOp::MatMul => "**".to_string(),
       VecOp::Solve => "\\".to_string(),
-      VecOp::Cross => "×".to_string(),
+      VecOp::Cross => "⨯".to_string(),
       VecOp::Dot => "·".to_string(),
     }
   }
